@@ -64,10 +64,17 @@ def make_policy(sk, mdp, mode, seed):
             P[(s, a)] = 0.0
         for a, p in zip(acts, ps):
             P[(s, a)] = p
-    data = [[P[(s, a)] for a in al] for s in sl]
+    # the table's OWN field order is independent of the MDP's (from_state_action_lists accepts any order, from_dict orders through a set):
+    # keep the MDP's order for the 'full' / 'det-first' modes, use a rotated state order and a reversed action order otherwise
+    psl, pal = list(sl), list(al)
+    if mode not in ('full', 'det-first'):
+        k = 1 + rnd.randrange(max(1, len(psl) - 1)) if len(psl) > 1 else 0
+        psl = psl[k:] + psl[:k]
+        pal = pal[::-1]
+    data = [[P[(s, a)] for a in pal] for s in psl]
     from symrun.npf import sym_array
     arr = sym_array(data) if S.symbolic() else np.array(data, dtype=float)
-    policy = tp.TabularPolicy.from_state_action_lists(state_list=mdp.state_list, action_list=mdp.action_list, data=arr)
+    policy = tp.TabularPolicy.from_state_action_lists(state_list=tuple(psl), action_list=tuple(pal), data=arr)
     return policy, P, sup
 
 
